@@ -322,9 +322,15 @@ class MpReachNLRI(Attribute):
                         data=value
                     )
             elif safi == safn.SAFNUM_UNICAST:
-                nexthop_bin = netaddr.IPAddress(value['nexthop']).packed
+                nexthop = netaddr.IPAddress(value['nexthop'])
+                nexthop_bin = nexthop.packed
                 if value.get('linklocal_nexthop'):
-                    nexthop_bin += netaddr.IPAddress(value['linklocal_nexthop']).packed
+                    linklocal = netaddr.IPAddress(value['linklocal_nexthop'])
+                    if nexthop.version != 6 or linklocal.version != 6:
+                        raise excep.ConstructAttributeFailed(
+                            reason='a link-local next hop needs two IPv6 addresses',
+                            data=value)
+                    nexthop_bin += linklocal.packed
                 nexthop_len = len(nexthop_bin)
 
                 nlri_bin = IPv6Unicast.construct(nlri_list=value['nlri'])
